@@ -18,6 +18,14 @@ def frames(i):
 
 def gen_case(rng, big=False):
     n = rng.randint(1, 12)
+    pair_titles = None
+    if rng.random() < 0.35:
+        n = max(n, 2)
+        st = rng.choice(["Drums", "A", "Pad 1"])
+        sp = rng.choice([" ", "-", "  ", " -"])
+        pair_titles = [st + sp + "L", st + sp + "R"]
+        if rng.random() < 0.5:
+            pair_titles.reverse()
     # first-index frame numbers, strictly increasing; exercise all FF values and carries
     start = rng.choice([0, 0, 0, 1, 1, 2, 3, 74, 75, 76, 149, 150, 4499, 4500]) if not big else rng.randint(0, 30)
     fr = [start]
@@ -33,6 +41,8 @@ def gen_case(rng, big=False):
             idx.append((j + (0 if nidx > 1 else 1), f // 4500, (f // 75) % 60, f % 75))
             f += rng.randint(0, 1) if k + 1 < len(fr) and f + 1 < fr[k + 1] else 0
         title = None if rng.random() < 0.3 else "T%02d %s" % (k + 1, rng.choice(["x", "song", "Ab-c", "q.r"]))
+        if pair_titles and k < 2:
+            title = pair_titles[k]            # "Drums L" / "Drums R": tracks are stereo files on their own, never merged
         tracks.append({"number": k + 1, "mode": "AUDIO", "title": title, "indices": idx})
     last = fr[-1]
     tail = rng.choice([0, 1, 2, 3, 4, 5, 2351, 2352, 2353, 4704 + 6, 1000, 7])
